@@ -301,11 +301,14 @@ def lexShape : Bool → List XTok → Bool
   | _, _ :: r => lexShape false r
 
 /-- well-formedness constraint: an attribute without value only occurs as a word of processing-instruction
-data (argument: "inside a PI") -/
+data (argument: "inside a PI" as the dependency lexer sees it: from `<?target` to `?>` — or to a `>` / `/>` in the
+data, which the lexer reads as the end of a tag and behind which it delivers character data) -/
 def bareInPI : Bool → List XTok → Bool
   | _, [] => true
   | _, .startTagPI _ :: r => bareInPI true r
   | _, .startTagClosePI :: r => bareInPI false r
+  | _, .startTagClose :: r => bareInPI false r
+  | _, .startTagCloseVoid :: r => bareInPI false r
   | pi, .attrBare _ _ :: r => pi && bareInPI pi r
   | pi, _ :: r => bareInPI pi r
 
